@@ -35,7 +35,7 @@ PROPS = {
     },
 }
 
-REFLECT_CLASS = {("C04", 2): ["F15"], ("C04", 3): ["F22"], ("C15", 5): ["F19"]}
+REFLECT_CLASS = {("C04", 2): ["F15"], ("C04", 3): ["F22"], ("C15", 5): ["F19"], ("C01", 6): ["F19"]}
 # reflection details that tie a Coq definition to the code (a failure is a broken tie, not a failing input)
 REFLECT_TIE = {("C04", 6): "the wallet's signature covenants (Covenant::std_ed25519_pk_new / _legacy) no longer decode to the op lists std_ed25519_new / std_ed25519_legacy of STF/Proofs/StdCovenant.v"}
 
